@@ -48,7 +48,7 @@ fn builder_alphabet() -> Vec<BOp> {
         v.push(BOp::SetContents(last, s("text")));
         v.push(BOp::Ignore(last));
     }
-    for r in [None, s(""), s("r"), s("r/")] {
+    for r in [None, s(""), s("r"), s("r/"), s("/")] {
         v.push(BOp::SetRoot(r));
     }
     v.push(BOp::SetFile(None));
@@ -238,7 +238,7 @@ pub enum MOp {
 fn map_alphabet() -> Vec<MOp> {
     let s = |x: &str| Some(x.to_string());
     let mut v = vec![];
-    for r in [None, s(""), s("r"), s("r/"), s("http://x/")] {
+    for r in [None, s(""), s("r"), s("r/"), s("http://x/"), s("/")] {
         v.push(MOp::SetRoot(r));
     }
     for last in [false, true] {
@@ -500,7 +500,7 @@ pub fn run(run: &mut Run) -> Finish {
     }
     Finish {
         level: "model_checking",
-        rule: "E2: every history of builder calls up to the stated length (alphabet: add_source x4, add_name x3, add x8, add_raw x2, set_source_contents x4, add_to_ignore_list x2, set_source_root x4, set_file x2, set_debug_id x2) is replayed on a fresh SourceMapBuilder in lock-step with a Vec+linear-search interning model: returned ids / raw tokens and all getters after every step, the finished map's sources (joined with the root), names, contents, ignore list, file, debug id, root and every token's resolved strings at the end. Every history of map operations (set_source_root x5, set_source x6, set_source_contents x4, to_writer+from_slice) from 12 seed maps: after every step get_source(i) = join(root, raw_i), contents, and the serialised sources/sourceRoot are the raw names and root. Builder histories also start from four non-initial states (prefixes with several sources, contents, roots, raw tokens). No state merging: states = distinct reference-model states (builder) / histories (map); transitions = operations executed on real objects; traces = complete histories.".into(),
+        rule: "E2: every history of builder calls up to the stated length (alphabet: add_source x4, add_name x3, add x8, add_raw x2, set_source_contents x4, add_to_ignore_list x2, set_source_root x5, set_file x2, set_debug_id x2) is replayed on a fresh SourceMapBuilder in lock-step with a Vec+linear-search interning model: returned ids / raw tokens and all getters after every step, the finished map's sources (joined with the root), names, contents, ignore list, file, debug id, root and every token's resolved strings at the end. Every history of map operations (set_source_root x6, set_source x6, set_source_contents x4, to_writer+from_slice) from 12 seed maps: after every step get_source(i) = join(root, raw_i), contents, and the serialised sources/sourceRoot are the raw names and root. Builder histories also start from four non-initial states (prefixes with several sources, contents, roots, raw tokens). No state merging: states = distinct reference-model states (builder) / histories (map); transitions = operations executed on real objects; traces = complete histories.".into(),
         assumptions: vec!["operations with out-of-range ids (documented to panic) are not part of the alphabet".into(), "tokens sharing a position are compared as a multiset".into()],
         coverage_extra: json!({"builder_depth": bdepth, "builder_alphabet": nb, "map_depth": mdepth, "map_alphabet": nm, "map_seeds": ns}),
     }
